@@ -1420,6 +1420,14 @@ func (e *Exec) precreateRets(st *State, fn *ssa.Function, name string) {
 				if _, have := e.ghostTypes[g]; !have {
 					e.ghostGet(st, g, rt, e.sc.zero(rt))
 				}
+				if i == 0 {
+					ga := strings.ReplaceAll(name, ".", "_") + "_rets"
+					if _, have := e.ghostTypes[ga]; !have && e.sc.sortOf(rt) != "" {
+						at := types.NewArray(rt, 1)
+						e.ghostGet(st, ga, at, e.sc.zero(at))
+						e.rawGhost[ga] = true
+					}
+				}
 			}
 		}
 	}
